@@ -143,11 +143,14 @@ Proof. exact byte_image_is_image. Qed.
 Print Assumptions C04_byte_image_is_image.
 
 (* ... and crash_safe holds with the files given as bytes.
-   ASSUMED about the manifest (and false of session.recover in one corner, see props/C04.json): the manifest's
-   records are applied whole or not at all, as recover_bytes does.  session.recover decodes a record while it
-   streams its chunks; when the record is split over a 32 KiB block boundary and the crash keeps the first
-   chunk only, the fields decoded from the first chunk (journal number, next file number, sequence number)
-   stay in effect although the record is "skipped". *)
+   ASSUMED about the manifest: its records are applied whole or not at all, as recover_bytes does (read the
+   record completely, then decode).  session.recover did not do that on the pinned tree: it decoded a record
+   while streaming its chunks into the one sessionRecord it reuses, so when a record was split over a 32 KiB
+   block boundary and the crash kept the first chunk only, the journal / next-file / sequence numbers decoded
+   from that chunk stayed in effect although the record was "skipped" — acknowledged synced writes were lost
+   (found while writing this theorem; repaired in the repo by "fix: session.recover must read a manifest
+   record completely before decoding it"; the directed scenario harness/cmd/c04/mantorn.go is the oracle).
+   With the repair the assumption is what the code does for every torn record. *)
 Theorem C04_crash_safe_bytes : forall crc p, jparams_ok p ->
   forall enc_batch dec_batch enc_edit dec_edit ck ops b,
   codecs_ok enc_batch dec_batch enc_edit dec_edit (prun ops) ->
